@@ -33,7 +33,7 @@ use lightning_signer::signer::derive::KeyDerivationStyle;
 use lightning_signer::tx::tx::{CommitmentInfo2, HTLCInfo2};
 use lightning_signer::txoo::proof::TxoProof;
 use lightning_signer::util::status::{Code, Status};
-use lightning_signer::util::test_utils::key::make_test_counterparty_points;
+use lightning_signer::util::test_utils::key::{make_test_counterparty_points, make_test_pubkey};
 use lightning_signer::util::test_utils::*;
 use lightning_signer::lightning::types::payment::{PaymentHash, PaymentPreimage};
 use serde_json::{json, Value};
@@ -378,6 +378,8 @@ impl Sess {
             let c = self.chan(key);
             (c.idx, c.htlc)
         };
+        // channels of peer 1 are in lockstep (holder and counterparty commitment with the same number held)
+        let lockstep = key.0 == 1;
         let base = 1000 * (idx + 1);
         let commitment = {
             let p = self.chans.get_mut(&key).unwrap().prepared.as_mut().unwrap();
@@ -400,6 +402,14 @@ impl Sess {
                 chan.enforcement_state.set_next_holder_commit_num_for_testing(2);
                 chan.enforcement_state.current_holder_commit_info =
                     Some(CommitmentInfo2::new(false, TO_CP, TO_HOLDER, offered.clone(), vec![], FEERATE));
+                if lockstep {
+                    // both sides at commitment number 1 with the same HTLC set: the signer also
+                    // holds the counterparty's commitment 1 (what we offer is what they receive).
+                    // What confirms in these histories is always OUR commitment 1.
+                    chan.enforcement_state.set_next_counterparty_commit_num_for_testing(2, make_test_pubkey(12));
+                    chan.enforcement_state.current_counterparty_commit_info =
+                        Some(CommitmentInfo2::new(true, TO_HOLDER, TO_CP, vec![], offered.clone(), FEERATE));
+                }
                 // a restart must find the same commitment info
                 persister.update_channel(&node_id, chan).expect("persist channel");
                 Ok(())
@@ -1133,6 +1143,18 @@ fn scripted(args: &Args) {
     scripts.push(("htlc-sweeps-reorged-out", 1000, vec![
         New(k2), Setup(k2, n.clone()), Add(vec![tid(0, F)]), Add(vec![tid(0, C), tid(0, S)]), Add(vec![tid(0, H)]), Add(vec![tid(0, X)]), Forget(k2),
         Remove, Remove, Burst(md), Heartbeat, Add(vec![]), Heartbeat, Add(vec![tid(0, H), tid(0, X)]), Burst(md.saturating_sub(1)), Heartbeat,
+    ]));
+    // lockstep (peer 1: our commitment 1 and the counterparty's commitment 1 both held, same HTLC):
+    // OUR commitment confirms, only the main output is swept, forgotten, buried: merely closing;
+    // the HTLC output must still be recognised as ours to claim
+    scripts.push(("lockstep-holder-close-htlc-open", 1000, vec![
+        New((1, 2)), Setup((1, 2), n.clone()), Add(vec![tid(0, F)]), Add(vec![tid(0, C)]), Add(vec![tid(0, S)]), Forget((1, 2)),
+        Burst(md), Heartbeat, Restart, Add(vec![]), Heartbeat, Add(vec![tid(0, H)]), Burst(md), Heartbeat,
+        Add(vec![tid(0, X)]), Burst(md.saturating_sub(2)), Heartbeat, Add(vec![]), Heartbeat,
+    ]));
+    scripts.push(("lockstep-holder-close-one-block", 1000, vec![
+        New((1, 4)), Setup((1, 4), n.clone()), Add(vec![tid(0, F), tid(0, C), tid(0, S)]), Forget((1, 4)),
+        Burst(md.saturating_sub(1)), Heartbeat, Add(vec![]), Heartbeat, Restart, Heartbeat,
     ]));
     // forget on a node that was itself restored from the store, then restart
     scripts.push(("forget-on-restored-node", 1000, vec![
